@@ -1,9 +1,9 @@
 #!/venv/bin/python
-"""Second campaign: copy the deliverables of the round-2 sub-agents (/tmp/r2/B*/refactor*, /tmp/r2/S*/defect*) into
-/verif/benign/B2-Cxx-n and /verif/seeded/S2-Cxx-n.  Seeded defects are confirmed first (tools/verify_seeded.py in a scratch
+"""Later campaigns: copy the deliverables of the round-N sub-agents (<root>/B*/refactor*, <root>/S*/defect*) into
+/verif/benign/B<N>-Cxx-n and /verif/seeded/S<N>-Cxx-n.  Seeded defects are confirmed first (tools/verify_seeded.py in a scratch
 worktree: applies, compiles, test baselines unchanged, demo 0 -> 1).
 
-usage: ingest_r2.py [--root /tmp/r2] [--no-verify]
+usage: ingest_round.py --round 3 [--root /tmp/r3] [--no-verify]
 """
 import argparse
 import json
@@ -44,9 +44,11 @@ def verify(d, slot):
 
 def main():
     ap = argparse.ArgumentParser()
-    ap.add_argument("--root", default="/tmp/r2")
+    ap.add_argument("--round", type=int, default=2)
+    ap.add_argument("--root", default=None)
     ap.add_argument("--no-verify", action="store_true")
     args = ap.parse_args()
+    args.root = args.root or f"/tmp/r{args.round}"
     benign, seeded = [], []
     for g in sorted(os.listdir(args.root)):
         gd = os.path.join(args.root, g)
@@ -68,7 +70,7 @@ def main():
         marker = os.path.join(d, ".ingested")
         if os.path.exists(marker):
             continue
-        bid = next_id("benign", "B2", prop)
+        bid = next_id("benign", f"B{args.round}", prop)
         out = os.path.join(VERIF, "benign", bid)
         os.makedirs(out)
         for fn in ("patch.diff", "notes.md", "equiv.py"):
@@ -91,14 +93,14 @@ def main():
         if prop is None or not ok:
             print("skip (not verified)" if prop else "skip (no property id)", d, "|", log.splitlines()[-1][:200] if log else "")
             continue
-        sid = next_id("seeded", "S2", prop)
+        sid = next_id("seeded", f"S{args.round}", prop)
         out = os.path.join(VERIF, "seeded", sid)
         os.makedirs(out)
         for fn in ("patch.diff", "demo.py", "notes.md"):
             if os.path.exists(os.path.join(d, fn)):
                 shutil.copy(os.path.join(d, fn), os.path.join(out, fn))
         files = sorted(set(re.findall(r"^\+\+\+ b/(\S+)", open(os.path.join(d, "patch.diff")).read(), re.M)))
-        meta = {"id": sid, "breaks_property": prop, "round": 2,
+        meta = {"id": sid, "breaks_property": prop, "round": args.round,
                 "written_by": "sub-agent that saw only the property text and a scratch worktree (nothing from /verif)",
                 "files_changed": files,
                 "confirmed": {"how": "tools/verify_seeded.py in a scratch worktree: patch applies, package compiles, pinned suite and wider suite as baseline, "
